@@ -118,6 +118,18 @@ def gen_history(rng, max_commits=25):
     return mg.Repo("r", commits, heads, tags)
 
 
+def collection_for(repo):
+    """the collection of one project: given a ready project object or, for every third history, the repository
+    itself (with the remote's name unless that is the default) - the project class is then looked up in the
+    collection's registry of repository types"""
+    if len(repo.commits) % 3:
+        return ReposCollection({'r': mg.repo_for('r', repo)})
+    cls = type("VfCollection", (ReposCollection,), {"_REPOS_TYPES": {'r': type(mg.repo_for('r', repo))}})
+    if repo.remote == 'origin' and len(repo.tags) % 2:
+        return cls({'r': repo})
+    return cls({'r': (repo, repo.remote) if len(repo.tags) % 3 else [repo, repo.remote]})
+
+
 def disk_collection(repo, git_dir, refs_seed, loose):
     """a collection whose project reads the refs of `repo` from a .git directory written for this call"""
     disk_repo, stats = mg.disk_refs_repo(repo, git_dir, refs_seed, loose)
@@ -331,7 +343,7 @@ def run_shard(ctx):
                 ctx.count("histories_tracking_a_remote_other_than_origin")
             texts = rng.sample(TEXTS, rng.randint(1, 3))
             # half of the histories are reported by ONE long-lived collection asked for several texts
-            shared = ReposCollection({'r': mg.repo_for('r', repo)}) if rng.random() < 0.5 else None
+            shared = collection_for(repo) if rng.random() < 0.5 else None
             late_tags = []
             if shared is None and rng.random() < 0.12:
                 # the refs are read from a .git directory by the production code (packed refs, annotated tags)
@@ -391,7 +403,7 @@ def replay(ctx, case):
     earlier = case.get("earlier_texts_on_same_collection") or []
     shared = None
     if earlier:
-        shared = ReposCollection({'r': mg.repo_for('r', repo)})
+        shared = collection_for(repo)
         for t in earlier:
             shared.make_reports_data(t)
             shared.make_report(t)
